@@ -19,33 +19,64 @@ _G = None
 ALIASES = ["p", "q"]
 
 
-def _mk_interfaces(lab):
-    def make(name, members, defaults):
-        ns = {"__annotations__": {m: str for m in members if m not in defaults}}
+def _mk_interfaces(lab, form=0):
+    """The two interfaces of Interface.tla.  `form` varies HOW the members are declared (all forms the
+    documentation lists): abstract members as a bare annotation or an explicit @abstractdataset; members
+    with a default as a plain function, a @dataset, a @dataset that already has a dispatch of its own
+    (the interface's dispatch replaces it) or a non-dataset Evaluatable."""
+    def make(name, members, defaults, k):
+        ns = {"__annotations__": {}}
+        for m in members:
+            if m in defaults:
+                continue
+            if (form + k) % 2 == 0:
+                ns["__annotations__"][m] = str
+            else:
+                def ab():
+                    raise AssertionError("abstract member body must never run")
+                ab.__name__ = m
+                ns[m] = lab.abstractdataset(ab)
         for m in defaults:
-            def f(_v="default:%s.%s" % (name, m)):
+            v = "default:%s.%s" % (name, m)
+
+            def f(_v=v):
                 return _v
             f.__name__ = m
-            ns[m] = staticmethod(f)
+            which = (form + k) % 4
+            if which == 0:
+                ns[m] = staticmethod(f)
+            elif which == 1:
+                ns[m] = lab.dataset(f)
+            elif which == 2:
+                ns[m] = lab.dataset(f, dispatch=lab.Option("OTHERD"))
+            else:
+                ns[m] = lab.Value(v)
         return lab.interface("DISP")(type(name, (), ns))
 
-    return {"I1": make("I1", ["a", "d"], ["d"]), "I2": make("I2", ["a", "e"], ["e"])}
+    return {"I1": make("I1", ["a", "d"], ["d"], 0), "I2": make("I2", ["a", "e"], ["e"], 1)}
 
 
 def replay_interface(lab, labels):
     from labrea.conditional import SwitchError
     from labrea.exceptions import EvaluationError
 
-    I = _mk_interfaces(lab)
+    import hashlib
+
+    form = int(hashlib.sha1(canon([{k: v for k, v in a.items() if k != "obs"} for a in labels]).encode()).hexdigest(), 16) % 4
+    I = _mk_interfaces(lab, form)
     log = []
     for step, a in enumerate(labels):
         ns = {}
-        for m in sorted(a["provides"]):
-            def f(_v="impl%d:%s" % (a["id"], m), _log=log):
+        for j, m in enumerate(sorted(a["provides"])):
+            v = "impl%d:%s" % (a["id"], m)
+
+            def f(_v=v, _log=log):
                 _log.append(_v)
                 return _v
             f.__name__ = m
-            ns[m] = staticmethod(f)
+            # the documented member forms of an implementation: function, @dataset, static value, Evaluatable
+            which = (form + a["id"] + j) % 4
+            ns[m] = staticmethod(f) if which == 0 else lab.dataset(f) if which == 1 else v if which == 2 else lab.Value(v)
         accepted = True
         try:
             lab.implements(*[I[i] for i in sorted(a["ifs"])], alias=sorted(a["als"]))(type("Impl%d" % a["id"], (), ns))
@@ -74,7 +105,9 @@ def replay_interface(lab, labels):
         member = getattr(I[i], m)
         for al, exp in sorted(row.items()):
             try:
-                got = member({"DISP": al})
+                log.clear()
+                # (OTHERD: the key a member's own former dispatch read; it must play no role any more)
+                got = member({"DISP": al, "OTHERD": "q" if al == "p" else "p"})
             except SwitchError:
                 got = "SwitchError"
             except EvaluationError as e:
